@@ -1,0 +1,28 @@
+//go:build verif
+// +build verif
+
+package gmtls
+
+// Hooks for the verification harness, byte-level session state codec (build tag "verif" only): the fields
+// sessionState.unmarshal produced and the bytes sessionState.marshal writes for given fields. Nothing here
+// changes the behaviour of existing code.
+
+// VerifSessionStateMarshal runs sessionState.marshal on a state with the given fields.
+func VerifSessionStateMarshal(vers, suite uint16, master []byte, certs [][]byte) []byte {
+	s := &sessionState{vers: vers, cipherSuite: suite, masterSecret: master, certificates: certs}
+	return s.marshal()
+}
+
+// VerifSessionStateParse runs sessionState.unmarshal on data. When the parser accepts, the parsed fields are
+// returned (copies) together with what marshal writes for the very struct the parser filled in.
+func VerifSessionStateParse(data []byte) (ok bool, vers, suite uint16, master []byte, certs [][]byte, remarshalled []byte) {
+	s := new(sessionState)
+	if !s.unmarshal(data) {
+		return false, 0, 0, nil, nil, nil
+	}
+	master = append([]byte{}, s.masterSecret...)
+	for _, c := range s.certificates {
+		certs = append(certs, append([]byte{}, c...))
+	}
+	return true, s.vers, s.cipherSuite, master, certs, s.marshal()
+}
